@@ -115,6 +115,11 @@ def gen_cfg(rng: random.Random):
         cfg.update({"src_name": "übergröße 文件.bin", "dst_name": "зона 51 ☃.dat"})  # names with non-ASCII characters and blanks (multi-byte in UTF-8)
     if rng.random() < 0.3:
         cfg["scribble_pdus"] = True  # the user edits (the header of) every PDU object after it has taken its bytes
+    if rng.random() < 0.2:
+        # the optional parts of a put request (they travel in the Metadata PDU, which is not bounded by max_packet_len)
+        cfg.update(rng.choice([{"opts": {"flow_label": ""}}, {"opts": {"flow_label": "0a0b", "fs_requests": 2}}, {"opts": {"overrides": 3}},
+                               {"msgs": [["raw", "80818283848586"], ["raw", "fffefdfcfb"]]}, {"msgs": [["orig", 5, 2, 7, 2]], "opts": {"fs_requests": 1, "overrides": 1, "flow_label": "ff"}},
+                               {"msgs": [["proxy_put_request", 3, "remote/src.bin", "local/dst.bin"], ["raw", "00"]]}]))
     return cfg, eff
 
 
@@ -518,6 +523,7 @@ def run_case(case):
             obs["closure_from_" + ("request" if c["req_closure"] == "cfg" else "mib")] = 1
             obs["request_contradicts_mib"] = int(bool(rc))
             obs["mixed_id_width"] = int(c["src_idw"] != c["dst_idw"])
+            obs["streams_of_requests_with_options_or_messages"] = int(bool(c.get("opts") or c.get("msgs")))
             obs["pdu_crc_on"] = int(c["crc"])
             obs["segment_len_from_" + ("max_packet_len" if (c["seg"] is None or c["seg"] > case["eff"]) else "max_file_segment_len")] = 1
             obs["cks_" + c["cks"]] = 1
@@ -556,4 +562,4 @@ def run_case(case):
 
 
 REQUIRED = {"metadata_checked": 100, "eof_checked": 100, "empty_file_eof_checked": 5, "ack_finished_checked": 20, "full_segments": 200,
-            "fd_pdu_exactly_max_packet_len": 20, "large_file_cases": 4, "large_flag_boundary_cases": 8, "mixed_id_width": 20, "request_contradicts_mib": 20, "eof_resends_checked": 100, "second_streams_on_same_sender": 100, "second_stream_after_mib_change": 30, "refused_put_requests_during_stream": 100, "long_name_requests_refused": 8, "long_name_requests_announced_correctly": 2, "next_put_request_before_last_pdus_were_retrieved": 50, "second_stream_with_same_request_object_after_mib_flip": 100, "file_stream_after_metadata_only_request": 10}
+            "fd_pdu_exactly_max_packet_len": 20, "large_file_cases": 4, "large_flag_boundary_cases": 8, "mixed_id_width": 20, "request_contradicts_mib": 20, "eof_resends_checked": 100, "second_streams_on_same_sender": 100, "second_stream_after_mib_change": 30, "refused_put_requests_during_stream": 100, "long_name_requests_refused": 8, "long_name_requests_announced_correctly": 2, "next_put_request_before_last_pdus_were_retrieved": 50, "second_stream_with_same_request_object_after_mib_flip": 100, "file_stream_after_metadata_only_request": 10, "streams_of_requests_with_options_or_messages": 500}
